@@ -448,6 +448,10 @@ func (fv *FuncVC) appendBuiltin(v ssa.Value, cc *ssa.CallCommon, pos token.Pos) 
 		fv.assert(fv.forallCopy(r, z, d, z, fv.lenOf(d)))
 		fv.assert(fv.forallCopy(r, fv.lenOf(d), x, z, fv.lenOf(x)))
 	}
+	fv.assert(fv.pfx(r, d))
+	if sameSort(r.Sort, x.Sort) {
+		fv.assert(fv.sfx(r, fv.lenOf(d), x))
+	}
 	if d.Sort.Kind == KBytes {
 		fv.ghostAppend(r, d, x, cc.Args[1], pos)
 	}
